@@ -410,7 +410,7 @@ def elasticLine (rest : String) : String :=
       String.intercalate " | " outs
   | _ => "bad-op"
 
-/-! ### connio: `connio <maxStatic> | v l1,l2 a=K ; w l a=K ; f a=K ; end` (K = bytes the kernel accepted) -/
+/-! ### connio: `connio <maxStatic> | v l1,l2 a=K ; w l a=K ; f a=K ; q l1,l2 ; t a=K ; end` (K = bytes the kernel accepted) -/
 def parseAcc (tok : String) : Option Nat :=
   if tok.startsWith "a=" then (tok.drop 2).toString.toNat? else none
 
@@ -439,6 +439,15 @@ def connioLine (rest : String) : String :=
           | _, _ => (pool, c, k, outs ++ ["bad-op"])
         | ["f", a] => match parseAcc a with
           | some a => let (pool', c') := ConnIO.flush pool c a; fin pool' c' k
+          | none => (pool, c, k, outs ++ ["bad-op"])
+        | ["q", lens] => match parseLens lens with
+          | some lens =>
+            -- `EnqueueOutFrag` for each request: nothing is written before the write signal runs
+            let (bs, k') := streamSlices k lens
+            fin pool (bs.foldl ConnIO.enqueue c) k'
+          | none => (pool, c, k, outs ++ ["bad-op"])
+        | ["t", a] => match parseAcc a with
+          | some a => let (pool', c') := ConnIO.writeSignal pool c [a]; fin pool' c' k
           | none => (pool, c, k, outs ++ ["bad-op"])
         | ["end"] => (pool, c, k, outs ++ [s!"stream {digest c.wire}"])
         | _ => (pool, c, k, outs ++ ["bad-op"])) init
